@@ -84,6 +84,11 @@ CHECKS = {
     text="Four generated campaigns: the same input phased with both tags must decode identically; random block structures written by PhasedVcfWriter must be returned unchanged by VcfReader; a phased VCF used as the only phase input must reproduce every phase set; and histories of phase(tag, read subset, targets) / unphase steps on one file must leave, after every phase step, exactly the phase statements that the same run produces on the never-phased file (targets) and untouched statements (non-targets).",
     note="Trusted: pysam-level extraction of phase statements; orphan PS values on unphased genotypes are not counted as phase statements.",
     ref="DESIGN.md section 4, C09"),
+ "C10": dict(
+    technique="property-based testing (Hypothesis): generated phased VCF + mixed BAM through haplotag; conservation diff, ground-truth / quality-model decision oracle, metamorphic haplotype relabelling",
+    text="Error-free reads of known haplotypes (single, paired, supplementary, secondary, duplicate, unmapped, stale tags, BX clouds) are tagged with drawn options; the output must be the input record for record except HP/PS/PC, tagged reads must carry their true haplotype in the reported phase set, and swapping the haplotypes of one phase set in the VCF must flip HP for exactly that set. A second campaign in --no-reference mode with planted mismatches and per-base qualities (ploidy 2-4) checks HP = strict arg-max of summed quality, PC = best - second, ties untagged.",
+    note="Trusted: read renderer, pysam for BAM comparison; BX cloud pooling is validity-checked only (it is order dependent).",
+    ref="DESIGN.md section 4, C10"),
 }
 
 NOT_YET = {}
